@@ -334,63 +334,28 @@ def run(fx, chk, tier):
                     checked = True
         chk.require(checked and not narrowing, "R-STCO", "conversion", "u32::try_from per offset, no narrowing cast",
                     "StcoBox::try_from(&Co64Box) does not use a checked u64 -> u32 conversion (checked=%s, narrowing casts in %s)" % (checked, narrowing), site_of(conv))
-        # installed only on Ok
-        we = fx.impl_fn("Mp4TrackWriter", None, "write_end")
-        if chk.anchor("R-STCO", "Mp4TrackWriter::write_end", we):
-            ok = False
-            for n, ps in hirq.walk(hirq.body_root(we)):
-                if n.get("k") == "if" and n["cond"].get("k") == "letx":
-                    p = n["cond"]["pat"]
-                    init = n["cond"]["init"]
-                    if p.get("k") == "tuplestruct" and (p.get("def") or "").endswith("Result::Ok"):
-                        calls = [m for m, _ in hirq.walk(init) if m.get("k") in ("call", "mcall") and (m.get("resolved") or "") == conv["id"]]
-                        stores = [m for m, _ in hirq.walk(n["then"]) if m.get("k") == "assign" and (hirq.path_str(m["l"]) or "").endswith(".stco")]
-                        if calls and stores:
-                            ok = True
-            other = [m for m, ps in hirq.walk(hirq.body_root(we)) if m.get("k") == "assign" and (hirq.path_str(m["l"]) or "").endswith(".stco")]
-            chk.require(ok and len(other) == 1, "R-STCO", "install", "stco installed inside `if let Ok(stco) = StcoBox::try_from(..)` only",
-                        "the 32-bit chunk-offset table is installed without checking that the conversion succeeded", site_of(we))
-
-    # ---------------- R-ABS
-    wc = fx.impl_fn("Mp4TrackWriter", None, "write_chunk")
-    if chk.anchor("R-ABS", "Mp4TrackWriter::write_chunk", wc):
-        it = eng.res.interps.get(wc["id"])
-        body = it.body
-        ok = False
-        n = 0
-        for b, t in body.calls():
-            p = callee_path(t["callee"]) or ""
-            if p.endswith("::update_chunk_offsets"):
-                n += 1
-                st = it.out_states.get(b)
-                sid, lo, hi, prov = it.read_op(st, t["args"][1], (b, "t"))
-                ok = prov == frozenset(["POS"])
-        chk.require(ok and n == 1, "R-ABS", "offset", "recorded offset = stream_position()", "the recorded chunk offset is not the stream position taken before the chunk is written", site_of(wc))
-
-    # ---------------- R-MDAT
-    ws = fx.impl_fn("Mp4Writer<W>", None, "write_start")
-    um = fx.impl_fn("Mp4Writer<W>", None, "update_mdat_size")
-    if chk.anchor("R-MDAT", "write_start / update_mdat_size", ws and um):
-        import layout as LY
-        from packs_common import io_fallible_set
-        iof = io_fallible_set(fx, cg)
-        L = LY.extract(fx, iof, ws)
-        seqn = [x for x in L["items"] if x["n"] not in ("let",)]
-        kinds = [x["n"] for x in seqn]
-        # ftyp child, pos, hdr(mdat), hdr(wide)
-        hdrs = [x for x in seqn if x["n"] == "hdr"]
-        good = kinds[:4] == ["child", "pos", "hdr", "hdr"] and len(hdrs) == 2
-        if good:
-            t0 = LY.norm_expr(hdrs[0]["ty"])
-            t1 = LY.norm_expr(hdrs[1]["ty"])
-            s0 = LY.const_of(fx, hdrs[0]["size"])
-            s1 = LY.const_of(fx, hdrs[1]["size"])
-            good = t0.endswith("MdatBox") and t1.endswith("WideBox") and s0 == 8 and s1 == 8
-        chk.require(good, "R-MDAT", "prologue", "ftyp, mdat_pos := position, 8-byte mdat header, 8-byte wide header",
-                    "write_start does not write [ftyp][mdat header, 8 bytes][wide header, 8 bytes] in that order after recording mdat_pos (found %s)" % kinds[:6], site_of(ws))
-        okm, why = mdat_patch_paths(fx, um)
-        chk.require(okm, "R-MDAT", "patch", "size=1 at mdat_pos and u64 at mdat_pos + 8 above u32::MAX; u32 at mdat_pos otherwise",
-                    "update_mdat_size does not patch the mdat size field as the prologue expects: %s" % why, site_of(um))
+    # installed only from the conversion's Ok result; recorded offsets are absolute positions; prologue / patch pairing:
+    # effect-trace rules shared with C01/C02 (muxrules M1, M7, M8, M9)
+    import muxrules
+    M = getattr(chk, "_mux", None) or muxrules.Mux(fx)
+    chk._mux = M
+    M.discover()
+    res = []
+    M.m9(res)
+    for ok_, key_, how_, fn_, line_ in res:
+        chk.require(ok_, "R-STCO", "install", how_, how_, site_of(fn_, line_))
+    res = []
+    n_abs = M.m1(M.tw_end, res) + M.m1(M.tw_sample, res)
+    tab = [r for r in res if r[1].endswith("|flush|tables")]
+    okabs = bool(tab) and all(r[0] for r in tab)
+    chk.require(okabs, "R-ABS", "offset", "every recorded chunk offset is the stream_position() taken immediately before the chunk is written (%d flush instances)" % n_abs,
+                "a recorded chunk offset is not the absolute stream position taken before the chunk is written: %s" % [r[2] for r in tab if not r[0]][:1], site_of(M.tw_end))
+    res = []
+    M.m7(res)
+    M.m8(res)
+    for ok_, key_, how_, fn_, line_ in res:
+        if key_ in ("prologue", "patch"):
+            chk.require(ok_, "R-MDAT", key_, how_, how_, site_of(fn_, line_))
     return chk.finish(
         "other",
         "%d 64-bit-sourced narrowing casts in the muxer closure are classified with the abstract interpreter's intervals and the version-pairing rule; the co64->stco conversion, "
